@@ -48,6 +48,20 @@ theorem C17_gen_resolve_forward_type_plain (W : World V) (k : Nat) :
   gen_obligation "C17_gen_resolve_forward_type_plain: the regenerated code (Utv.Gen) is no longer equal to the hand model here" by
     rfl
 
+/-- a constrained / generic type (a class whose metaclass is `LogicalType`): the object itself, and whatever its own
+`resolve_forward_refs()` reports — the descent the model's `resolveTy` makes through `list / dict / tuple / union / con`
+happens there, on the class object in place (not translated: no hand counterpart at this level) -/
+theorem C17_gen_resolve_forward_type_rule (W : World V) (m r : OVal V) (attrs : List (String × OVal V))
+    (hm : lookupAttr "resolve_forward_refs" attrs = some m) (hr : W.call m [] = .ok r) :
+    Forward.resolve_forward_type W (.obj "LogicalType" attrs) = .ok (.seq .tuple [.obj "LogicalType" attrs, r]) := by
+  gen_obligation "C17_gen_resolve_forward_type_rule: the regenerated code (Utv.Gen) is no longer equal to the hand model here" by
+    unfold Forward.resolve_forward_type
+    have h1 : isinstance (OVal.obj "LogicalType" attrs : OVal V) ["ForwardRef"] = .ok false := rfl
+    have h2 : isinstance (OVal.obj "LogicalType" attrs : OVal V) ["LogicalType"] = .ok true := rfl
+    have h3 : getattr (OVal.obj "LogicalType" attrs : OVal V) "resolve_forward_refs" = .ok m := by
+      simp [getattr, hm, pure, Except.pure]
+    simp only [h1, h2, h3, hr, bind, Except.bind, pure, Except.pure, Bool.false_eq_true, if_false, if_true]
+
 theorem resolveTy_plain (cfg : Utv.C17.Cfg) (cells : List (MCell × MTy)) :
     Utv.C17.resolveTy cfg cells .int = .int ∧ Utv.C17.resolveTy cfg cells .none = .none
       ∧ ∀ n, Utv.C17.resolveTy cfg cells (.data n) = .data n := by
